@@ -158,6 +158,9 @@ func (s *Sim) genApp() Op {
 	u := pick(r, s.world.Users)
 	a := &AppArgs{ID: fmt.Sprintf("app-%d", s.nApp), User: u.Name, Groups: u.Groups, Tags: map[string]string{}}
 	leaves := s.conf.Leaves()
+	if len(leaves) == 0 {
+		leaves = []string{"root.nosuch"}
+	}
 	if len(s.conf.Rules) > 0 {
 		// with placement rules the requested name is just one input
 		switch r.Intn(4) {
